@@ -1,0 +1,129 @@
+//go:build verif
+
+package verifdrv
+
+import (
+	"fmt"
+	"reflect"
+	"sort"
+	"strconv"
+	"time"
+)
+
+// Shape describes a Go type as data (property C05); it is materialised with reflect (StructOf etc.).
+type Shape struct {
+	K string       `json:"k"` // bool int8.. uint64 int uint f32 f64 str dur ptr slice map struct
+	E *Shape       `json:"e,omitempty"`
+	F []ShapeField `json:"f,omitempty"`
+}
+
+// ShapeField is one struct field of a Shape.
+type ShapeField struct {
+	N    string `json:"n"`
+	Tag  string `json:"tag"`
+	T    Shape  `json:"t"`
+	Anon bool   `json:"anon"`
+}
+
+var shapePrims = map[string]reflect.Type{
+	"bool": reflect.TypeOf(false),
+	"int":  reflect.TypeOf(int(0)), "int8": reflect.TypeOf(int8(0)), "int16": reflect.TypeOf(int16(0)),
+	"int32": reflect.TypeOf(int32(0)), "int64": reflect.TypeOf(int64(0)),
+	"uint": reflect.TypeOf(uint(0)), "uint8": reflect.TypeOf(uint8(0)), "uint16": reflect.TypeOf(uint16(0)),
+	"uint32": reflect.TypeOf(uint32(0)), "uint64": reflect.TypeOf(uint64(0)),
+	"f32": reflect.TypeOf(float32(0)), "f64": reflect.TypeOf(float64(0)),
+	"str": reflect.TypeOf(""), "dur": reflect.TypeOf(time.Duration(0)),
+}
+
+// Build materialises the shape; it panics on a malformed description.
+func (t *Shape) Build() reflect.Type {
+	if p, ok := shapePrims[t.K]; ok {
+		return p
+	}
+	switch t.K {
+	case "ptr":
+		return reflect.PtrTo(t.E.Build())
+	case "slice":
+		return reflect.SliceOf(t.E.Build())
+	case "map":
+		return reflect.MapOf(reflect.TypeOf(""), t.E.Build())
+	case "struct":
+		fs := make([]reflect.StructField, len(t.F))
+		for i := range t.F {
+			fs[i] = reflect.StructField{Name: t.F[i].N, Type: t.F[i].T.Build(),
+				Tag: reflect.StructTag(t.F[i].Tag), Anonymous: t.F[i].Anon}
+		}
+		return reflect.StructOf(fs)
+	}
+	panic("verif: unknown type kind " + t.K)
+}
+
+// Dump renders a value canonically: ["b",true] ["i","-5"] ["f","1.5"] ["s","x"] ["np"] ["p",x]
+// ["ns"] ["sl",[..]] ["nm"] ["m",[[k,v]..]] (sorted by key) ["st",[..]].
+func Dump(v reflect.Value) any {
+	switch v.Kind() {
+	case reflect.Bool:
+		return []any{"b", v.Bool()}
+	case reflect.Int, reflect.Int8, reflect.Int16, reflect.Int32, reflect.Int64:
+		return []any{"i", strconv.FormatInt(v.Int(), 10)}
+	case reflect.Uint, reflect.Uint8, reflect.Uint16, reflect.Uint32, reflect.Uint64:
+		return []any{"i", strconv.FormatUint(v.Uint(), 10)}
+	case reflect.Float32:
+		return []any{"f", strconv.FormatFloat(v.Float(), 'f', -1, 32)}
+	case reflect.Float64:
+		return []any{"f", strconv.FormatFloat(v.Float(), 'f', -1, 64)}
+	case reflect.String:
+		return []any{"s", v.String()}
+	case reflect.Ptr:
+		if v.IsNil() {
+			return []any{"np"}
+		}
+		return []any{"p", Dump(v.Elem())}
+	case reflect.Slice:
+		if v.IsNil() {
+			return []any{"ns"}
+		}
+		out := make([]any, v.Len())
+		for i := 0; i < v.Len(); i++ {
+			out[i] = Dump(v.Index(i))
+		}
+		return []any{"sl", out}
+	case reflect.Map:
+		if v.IsNil() {
+			return []any{"nm"}
+		}
+		keys := make([]string, 0, v.Len())
+		for _, k := range v.MapKeys() {
+			keys = append(keys, k.String())
+		}
+		sort.Strings(keys)
+		out := make([]any, len(keys))
+		for i, k := range keys {
+			out[i] = []any{k, Dump(v.MapIndex(reflect.ValueOf(k)))}
+		}
+		return []any{"m", out}
+	case reflect.Struct:
+		out := make([]any, v.NumField())
+		for i := 0; i < v.NumField(); i++ {
+			out[i] = Dump(v.Field(i))
+		}
+		return []any{"st", out}
+	}
+	return []any{"?", fmt.Sprint(v.Kind())}
+}
+
+// RunInto calls f with a pointer to a fresh zero value of typ and reports
+// {"r":"ok","v":dump} | {"r":"err","msg":..} | {"r":"panic","msg":..}.
+func RunInto(typ reflect.Type, f func(v any) error) map[string]any {
+	target := reflect.New(typ)
+	var err error
+	panicked, pv := Catch(func() { err = f(target.Interface()) })
+	switch {
+	case panicked:
+		return map[string]any{"r": "panic", "msg": pv}
+	case err != nil:
+		return map[string]any{"r": "err", "msg": err.Error()}
+	default:
+		return map[string]any{"r": "ok", "v": Dump(target.Elem())}
+	}
+}
